@@ -6,7 +6,7 @@ set -u
 OUT=$1; shift; mkdir -p $OUT
 export GOFLAGS=-mod=mod GOPROXY=off
 for id in "$@"; do
-  D=/verif/seeded/$id; PROP=$(jq -r .property $D/meta.json)
+  D=/verif/seeded/$id; PROP=$(jq -r "(.detected_by[0] // .property)" $D/meta.json)   # the check that reports it (the owning property unless recorded otherwise)
   W=/var/tmp/seedreg-$id; rm -rf $W; git -C /repo worktree prune
   git -C /repo worktree add -q --detach $W HEAD || { echo "$id worktree-failed" > $OUT/$id.res; continue; }
   ( cd $W && ( git apply $D/patch.diff 2>/dev/null || git apply --3way $D/patch.diff 2>/dev/null ) && go build ./... ) > $OUT/$id.build 2>&1
